@@ -142,6 +142,28 @@ func applyMod(lm message.Message, p *codec.Packet, m Mod) (ok bool, err error) {
 			c.SetPassword(append([]byte(nil), m.B...))
 			p.Password = m.B
 			flag(&p.ConnectFlags, 64, true)
+		case "version":
+			lv := byte(3 + m.V%2)
+			if err := c.SetVersion(lv); err != nil {
+				return true, err
+			}
+			p.Level, p.ProtoName = lv, message.SupportedVersions[lv]
+		case "clearpass":
+			// SetPassword with nothing takes the password out again; the expected packet
+			// carries the password flag as the message's own getter reports it afterwards
+			if !p.UserFlag() {
+				return false, nil
+			}
+			c.SetPassword(nil)
+			p.Password = nil
+			flag(&p.ConnectFlags, 64, c.PasswordFlag())
+		case "clearuser":
+			if p.PassFlag() {
+				return false, nil // a password needs a user name
+			}
+			c.SetUsername(nil)
+			p.Username = nil
+			flag(&p.ConnectFlags, 128, c.UsernameFlag())
 		case "willmsg":
 			if !p.WillFlag() || len(m.B) == 0 {
 				return false, nil
@@ -236,9 +258,13 @@ func applyMod(lm message.Message, p *codec.Packet, m Mod) (ok bool, err error) {
 			if len(m.B) == 0 {
 				return false, nil
 			}
+			if m.V%4 == 0 && len(p.Topics) > 0 {
+				m.B = p.Topics[m.V/4%len(p.Topics)] // a filter that is already listed
+			}
 			for _, t := range p.Topics {
-				if bytes.Equal(t, m.B) {
-					return false, nil
+				if bytes.Equal(t, m.B) { // AddTopic of a listed filter changes nothing
+					c.AddTopic(append([]byte(nil), m.B...))
+					return true, nil
 				}
 			}
 			c.AddTopic(append([]byte(nil), m.B...))
@@ -324,6 +350,30 @@ func checkModify(c ModCase) (fail string, applied int) {
 	name += " " + how
 	var hist []string
 	for _, m := range c.Mods {
+		if pm, isPub := lm.(*message.PublishMessage); isPub && m.K == "clone" {
+			// Clone is a deep copy: the copy stands for the same packet, whatever
+			// happens to the original afterwards
+			if p.QoS > 0 && p.PacketID == 0 {
+				continue // the identifier is still to be assigned
+			}
+			cl, err := pm.Clone()
+			if err != nil {
+				return fmt.Sprintf("%s: Clone failed: %v", name, err), applied
+			}
+			pm.SetDup(!pm.Dup())
+			pm.SetRetain(!pm.Retain())
+			if pl := pm.Payload(); len(pl) > 0 {
+				pl[0] ^= 0xff
+			}
+			if tp := pm.Topic(); len(tp) > 0 {
+				tp[len(tp)-1] ^= 0x01
+			}
+			pm.SetPayload([]byte("something else"))
+			lm = cl
+			applied++
+			hist = append(hist, "clone")
+			continue
+		}
 		ok, err := applyMod(lm, p, m)
 		if err != nil {
 			return fmt.Sprintf("%s: setter %s rejected a valid value: %v", name, m.K, err), applied
@@ -394,8 +444,8 @@ func TestC03Modify(t *testing.T) {
 		t.Skip()
 	}
 	kinds := map[byte][]string{
-		codec.PUBLISH:     {"qos", "qos", "retain", "dup", "pid", "topic", "payload"},
-		codec.CONNECT:     {"keepalive", "clean", "clientid", "willqos", "willretain", "username", "password", "willmsg"},
+		codec.PUBLISH:     {"qos", "qos", "retain", "dup", "pid", "topic", "payload", "clone"},
+		codec.CONNECT:     {"keepalive", "clean", "clientid", "willqos", "willretain", "username", "password", "willmsg", "clearpass", "clearuser", "version", "version"},
 		codec.CONNACK:     {"sp", "code"},
 		codec.SUBSCRIBE:   {"addtopic", "pid", "requalify", "requalify", "rmtopic"},
 		codec.UNSUBSCRIBE: {"addtopic", "pid", "rmtopic", "rmtopic"},
